@@ -231,8 +231,8 @@ def check_return(rep, d, label, where, scen, rt, dyn, facts, nonneg, symmap):
     rep.inconclusive("C16.range", label, "return", where=where, scenario=scen, detail="unrecognised return `%s`" % ir.show(rt)[:120])
 
 
-def rule_at(rep, d, fn, symmap):
-    label = "span::at(idx)"
+def rule_at(rep, d, fn, symmap, noexc=False):
+    label = "span::at(idx)" + (" [-fno-exceptions]" if noexc else "")
     where = d.where(fn)
     stmts = ir.kids(ir.body(fn))
     ifs = [s for s in stmts if s.get("kind") == "IfStmt"]
@@ -243,8 +243,10 @@ def rule_at(rep, d, fn, symmap):
     ks = ir.ekids(s)
     cond = ir.sx(ks[0])
     throws = any(x.get("kind") == "CXXThrowExpr" for x in ir.walk_expr(ks[1]))
+    if noexc:
+        throws = any(x.get("kind") == "CallExpr" and ir.sx(x)[0] == "call" and ir.show(ir.sx(x)[1]).split("::")[-1] in ("terminate", "abort") for x in ir.walk_expr(ks[1]))
     if not throws:
-        rep.violates("C16.at", label, "bounds test", where=d.where(s), detail="the out-of-range branch does not throw")
+        rep.violates("C16.at", label, "bounds test", where=d.where(s), detail="the out-of-range branch does not %s" % ("terminate the process" if noexc else "throw"))
         return
     thrown = [ir.qtype(ir.ekids(x)[0]) for x in ir.walk_expr(ks[1]) if x.get("kind") == "CXXThrowExpr" and ir.ekids(x)]
     # an index or size converted to a signed type before the comparison is not the value being compared: indices above PTRDIFF_MAX
@@ -267,7 +269,7 @@ def rule_at(rep, d, fn, symmap):
     else:
         rep.violates("C16.at", label, "bounds test", where=d.where(s),
                      detail="passing `!(%s)` does not imply %s < size(): some index >= size() is not rejected" % (ir.show(cond), pname))
-    if thrown and not any("out_of_range" in t for t in thrown):
+    if not noexc and thrown and not any("out_of_range" in t for t in thrown):
         rep.violates("C16.at", label, "exception type", where=d.where(s), detail="throws %s, not std::out_of_range" % thrown)
 
 
@@ -362,6 +364,46 @@ def rule_shape(rep, d, methods, ctors, symmap):
             ok = a == ("ref", pnames[0]) and b == ("ref", pnames[1])
             (rep.holds if ok else rep.violates)("C16.shape", label, "storage initialiser", where=d.where(c),
                                                 detail=got if ok else "pointer+count constructor must store (ptr, count); found " + got)
+        # precondition of the two range constructors: a static-extent span covers exactly the range handed in
+        if len(ps) == 2 and "pointer" in ptypes[0]:
+            body = ir.body(c)
+            exp_node, cond = find_expect([x for x in ir.walk_expr(body)] if body is not None else [])
+            length = Lin({pnames[1]: 1}) if "pointer" not in ptypes[1] else Lin({pnames[1]: 1, pnames[0]: -1})
+
+            def sm(t):
+                if t[0] == "ref" and t[1] in pnames:
+                    return t[1]
+                if t[0] == "ref" and t[1] in ("extent", "Extent"):
+                    return "E"
+                return None
+            if cond is None:
+                rep.violates("C16.shape", label, "range precondition", where=d.where(c), detail="no TCB_SPAN_EXPECT on the count / pointer pair")
+            else:
+                bad = None
+                for conj in dnf(nnf(cond)):
+                    facts = []
+                    is_dyn = False
+                    for leaf in conj:
+                        if leaf[0] != "atom":
+                            continue
+                        sides = (leaf[2], leaf[3])
+                        if any(x == ("ref", "dynamic_extent") for x in sides):
+                            if leaf[1] == "==":
+                                is_dyn = True
+                            continue
+                        l_, r_ = lin(leaf[2], sm), lin(leaf[3], sm)
+                        if l_ is not None and r_ is not None:
+                            facts += atom_facts(leaf[1], l_, r_)
+                    if is_dyn:
+                        continue
+                    if not (entails(facts, length - Lin({"E": 1}), ()) and entails(facts, Lin({"E": 1}) - length, ())):
+                        bad = ir.show(cond)
+                if bad:
+                    rep.violates("C16.shape", label, "range precondition", where=d.where(exp_node),
+                                 detail="for a static extent the check `%s` does not force the number of elements handed in to equal the extent: size() reports Extent "
+                                        "while fewer (or more) elements were passed, so the view covers memory outside the caller's range" % bad[:120])
+                else:
+                    rep.holds("C16.shape", label, "range precondition", where=d.where(exp_node), detail="dynamic extent or length == extent")
         elif len(ps) == 1:
             nm = pnames[0]
             sa, sb = ir.show(a), ir.show(b)
@@ -464,6 +506,14 @@ def run(tier):
             analyse_accessor(rep, d, fn, symmap)
     for fn in methods["at"]:
         rule_at(rep, d, fn, symmap)
+    # the same member without exceptions: the out-of-range branch must reach std::terminate under the same test
+    dn = cj.dump(DRIVER, "tcb", defines=["TCB_SPAN_TERMINATE_ON_CONTRACT_VIOLATION"], extra=["-fno-exceptions"])
+    rep.cmd(dn.cmd)
+    ats = [f for f in ir.functions(dn, "at") if (ir.enclosing_class(dn, f) or {}).get("name") == "span" and ir.is_template_pattern(dn, f)]
+    if not ats:
+        rep.inconclusive("C16.at", "span::at(idx) [-fno-exceptions]", "bounds test", detail="at() not found in the -fno-exceptions dump")
+    for fn in ats:
+        rule_at(rep, dn, fn, symmap, noexc=True)
     rule_shape(rep, d, methods, ctors, symmap)
     rule_mode(rep)
     rule_types(rep)
